@@ -41,10 +41,12 @@ func (c *fakeConn) State() api.ConnState           { return api.ConnActive }
 
 type probeCallbacks struct {
 	decodeErrors, received int
+	ctxs                   []context.Context // the stream context of every NewStreamDetect call
 }
 
 func (p *probeCallbacks) OnGoAway() {}
 func (p *probeCallbacks) NewStreamDetect(ctx context.Context, sender types.StreamSender, span api.Span) types.StreamReceiveListener {
+	p.ctxs = append(p.ctxs, ctx)
 	return p
 }
 func (p *probeCallbacks) OnReceive(ctx context.Context, headers api.HeaderMap, data buffer.IoBuffer, trailers api.HeaderMap) {
@@ -60,6 +62,28 @@ func (p *probeCallbacks) OnDecodeError(ctx context.Context, err error, headers a
 // a codec that reports a request frame together with an error and does not drain
 type stuckCodec struct{ bolt.XCodec }
 type stuckProto struct{ api.XProtocol }
+
+// errors without draining on the first call only, then decodes like bolt
+type stuckOnceCodec struct {
+	bolt.XCodec
+	calls *int
+}
+type stuckOnceProto struct {
+	api.XProtocol
+	calls *int
+}
+
+func (c *stuckOnceCodec) ProtocolName() api.ProtocolName { return "vh-stuck-once" }
+func (c *stuckOnceCodec) NewXProtocol(ctx context.Context) api.XProtocol {
+	return stuckOnceProto{c.XCodec.NewXProtocol(ctx), c.calls}
+}
+func (p stuckOnceProto) Decode(ctx context.Context, data api.IoBuffer) (interface{}, error) {
+	*p.calls++
+	if *p.calls == 1 {
+		return bolt.NewRpcRequest(7, nil, nil), errors.New("vh: undecodable, nothing drained")
+	}
+	return p.XProtocol.Decode(ctx, data)
+}
 
 func (c *stuckCodec) ProtocolName() api.ProtocolName                { return "vh-stuck" }
 func (c *stuckCodec) NewXProtocol(ctx context.Context) api.XProtocol { return stuckProto{c.XCodec.NewXProtocol(ctx)} }
@@ -121,6 +145,32 @@ func dispatchProbe(run *Run) {
 	run.Count("dispatch|stuck", true, "dispatch:undrained-error")
 	if r3.spun || r3.hung || r3.decodeErrors > 1 {
 		run.Fail("dispatch:spins-on-undrained-error", fmt.Sprintf("a codec returned (request frame, error) without draining: Dispatch answered it %d times in one call (spun=%v hung=%v); the read goroutine would spin forever", r3.decodeErrors, r3.spun, r3.hung), map[string]interface{}{"input_hex": Hex(good)})
+	}
+	// 4. after an answered error that consumed nothing, the NEXT Dispatch call must not run in the stream context of the
+	//    answered stream (its buffers, decoded command and reply state)
+	{
+		calls := 0
+		conn := &fakeConn{}
+		cb := &probeCallbacks{}
+		same, pan := false, ""
+		func() {
+			defer func() {
+				if rec := recover(); rec != nil {
+					pan = fmt.Sprint(rec)
+				}
+			}()
+			sc := xstream.NewStreamFactory(&stuckOnceCodec{calls: &calls}).CreateServerStream(context.Background(), conn, cb)
+			buf := buffer.NewIoBufferBytes(append(make([]byte, 0, 256), good...))
+			sc.Dispatch(buf) // first Decode: (request, error), nothing drained -> answered, Dispatch returns
+			sc.Dispatch(buf) // the read loop calls Dispatch again: the valid frame is decoded now
+			if len(cb.ctxs) >= 2 {
+				same = cb.ctxs[0] == cb.ctxs[len(cb.ctxs)-1]
+			}
+		}()
+		run.Count("dispatch|ctx", true, "dispatch:context-after-undrained-error")
+		if pan != "" || len(cb.ctxs) != 2 || same || cb.decodeErrors != 1 || cb.received != 1 {
+			run.Fail("dispatch:stream-context-shared-after-undrained-error", fmt.Sprintf("after an answered decode error that consumed nothing, the next Dispatch decoded the following frame in the SAME stream context as the answered stream (streams=%d same=%v errors=%d received=%d panic=%q)", len(cb.ctxs), same, cb.decodeErrors, cb.received, pan), map[string]interface{}{"input_hex": Hex(good)})
+		}
 	}
 	run.Sum.Extra["dispatch_probe"] = fmt.Sprintf("server: errors=%d received=%d closed=%d; bidirectional: errors=%d closed=%d; undrained-error codec: errors=%d spun=%v", r1.decodeErrors, r1.received, r1.closed, r2.decodeErrors, r2.closed, r3.decodeErrors, r3.spun)
 }
